@@ -522,17 +522,18 @@ func (s *state) visitForRange(node *ast.ForNode) {
 		s.errorf("range() takes 1 to 3 arguments, got %d", len(rangeNode.Args))
 	}
 
-	var varIndex,
-		varLimit = s.scope.pushForRange(node.Var)
+	// The loop runs over an index, as a {foreach} over the list range() returns
+	// would, so that index(), isFirst(), isLast() and {ifempty} mean the same.
+	var itemData,
+		itemInit,
+		itemStep,
+		itemCount,
+		itemIndex = s.scope.pushForRange(node.Var)
 	defer s.scope.pop()
-	s.jsln("var ", varLimit, " = ", limit, ";")
-	s.jsln("for (var ", varIndex, " = ", init, "; ",
-		varIndex, " < ", varLimit, "; ",
-		varIndex, " += ", increment, ") {")
-	s.indentLevels++
-	s.walk(node.Body)
-	s.indentLevels--
-	s.jsln("}")
+	s.jsln("var ", itemInit, " = ", init, ";")
+	s.jsln("var ", itemStep, " = ", increment, ";")
+	s.jsln("var ", itemCount, " = Math.max(0, Math.ceil((", limit, " - ", itemInit, ") / ", itemStep, "));")
+	s.visitLoop(node, itemData, itemInit+" + "+itemIndex+" * "+itemStep, itemCount, itemIndex)
 }
 
 func (s *state) visitForeach(node *ast.ForNode) {
@@ -543,13 +544,18 @@ func (s *state) visitForeach(node *ast.ForNode) {
 	defer s.scope.pop()
 	s.jsln("var ", itemList, " = ", node.List, ";")
 	s.jsln("var ", itemListLen, " = ", itemList, ".length;")
+	s.visitLoop(node, itemData, itemList+"["+itemIndex+"]", itemListLen, itemIndex)
+}
+
+// visitLoop writes the loop over itemIndex < itemCount whose item is itemExpr.
+func (s *state) visitLoop(node *ast.ForNode, itemData, itemExpr, itemListLen, itemIndex string) {
 	if node.IfEmpty != nil {
 		s.jsln("if (", itemListLen, " > 0) {")
 		s.indentLevels++
 	}
 	s.jsln("for (var ", itemIndex, " = 0; ", itemIndex, " < ", itemListLen, "; ", itemIndex, "++) {")
 	s.indentLevels++
-	s.jsln("var ", itemData, " = ", itemList, "[", itemIndex, "];")
+	s.jsln("var ", itemData, " = ", itemExpr, ";")
 	s.walk(node.Body)
 	s.indentLevels--
 	s.jsln("}")
